@@ -58,6 +58,9 @@ def run(st, tier, seed):
             if b2 is not None:
                 res.count("decoy-later-in-search-path")
                 bundles.append(("s%d-decoy" % i, b2))
+    exb = compile_check.example_bundles(rng, 15 if tier == "quick" else 200, "sys")
+    res.count("repository-examples", len(exb))
+    bundles += exb
     compile_check.run_bundles(st, res, bundles, "C02", "system", must_accept=True)
     res.programs = len(bundles)
     return res
